@@ -88,24 +88,22 @@ fn polling_loop(cfg: Arc<Mutex<Box<dyn ServerConfig>>>, socket: UdpSocket, queue
 }
 
 fn set_ctrlc_handler() {
+    ctrlc::set_handler(move || {
+        KEEP_RUNNING.store(false, Ordering::Release);
+
+        #[cfg(roughenough_verif)]
+        roughenough::verif::emit("sig", vec![]);
+    })
+    .expect("failed setting Ctrl-C handler");
+
     #[cfg(roughenough_verif)]
     {
-        ctrlc::set_handler(move || {
-            KEEP_RUNNING.store(false, Ordering::Release);
-            roughenough::verif::emit("sig", vec![]);
-        })
-        .expect("failed setting Ctrl-C handler");
-
         let default_hook = std::panic::take_hook();
         std::panic::set_hook(Box::new(move |info| {
             roughenough::verif::emit("panic", vec![]);
             default_hook(info);
         }));
     }
-
-    #[cfg(not(roughenough_verif))]
-    ctrlc::set_handler(move || KEEP_RUNNING.store(false, Ordering::Release))
-        .expect("failed setting Ctrl-C handler");
 }
 
 // Bind to the server port using SO_REUSEPORT and SO_REUSEADDR so the kernel will more fairly
@@ -256,9 +254,10 @@ pub fn main() {
     let mut verif_joined = 0u64;
 
     for t in threads {
+        let res = t.join();
+
         #[cfg(roughenough_verif)]
         {
-            let res = t.join();
             roughenough::verif::emit(
                 "m_joined",
                 vec![
@@ -267,11 +266,9 @@ pub fn main() {
                 ],
             );
             verif_joined += 1;
-            res.expect("join failed")
         }
 
-        #[cfg(not(roughenough_verif))]
-        t.join().expect("join failed")
+        res.expect("join failed")
     }
 
     #[cfg(roughenough_verif)]
